@@ -609,6 +609,10 @@ package table
 //@   loop 5 step keepNum >= 1 && header(keepNum) - keepNum == segASLen(param)
 //@   at-call param.GetAS()[:keepNum] requires keepNum >= 1 && segType(param) == bgp.BGP_ASPATH_ATTR_TYPE_SEQ && keepNum < segLen(param)
 //@   at-call bgp.NewPathAttributeAsPath(newIntfParams) requires as4Len <= asLen
+// "loses nothing": AS4_PATH stands for the trailing hops of AS_PATH; where the take-over from AS_PATH stops, the
+// next AS_PATH segment is one that counts hops - a confederation segment (never carried in AS4_PATH) standing at
+// the cut is taken over, not dropped
+//@   loop 6 invariant pre(len(newParams) < len(asParams) ==> segASLen(asParams[len(newParams)]) > 0)
 // "never produces an empty or over-long segment", for the segments the merge loop builds: the overflow of a merged
 // AS_SEQUENCE has at least one member and its first part exactly 255; a plain merge has at most 255
 //@   at-call ^bgp.NewAs4PathParam(paramType, paramAS[255-len(lastParamAS):]) requires len(arg1) >= 1
